@@ -61,6 +61,10 @@ func traceStrings(e *vsched.Exec) []string {
 	return out
 }
 
+// schedShardDepth: nodes at this depth of the choice tree are dealt round-robin to the worker
+// processes (everything above is re-executed by every worker but counted once).
+const schedShardDepth = 7
+
 type schedNode struct {
 	prefix []int
 	sel    []uint8
@@ -77,7 +81,7 @@ func exploreSched(c *fw.Ctx, sc schedScenario) {
 		if c.Expired() {
 			return
 		}
-		counted := depth >= 2 || c.Shard == 0
+		counted := depth >= schedShardDepth || c.Shard == 0
 		cas := schedCase{Scenario: sc.ID, Params: sc.Params, Prefix: n.prefix, Sel: n.sel}
 		if counted {
 			if !c.Begin(func() any { return cas }) {
@@ -116,7 +120,7 @@ func exploreSched(c *fw.Ctx, sc schedScenario) {
 		selUsed := make([]uint8, len(e.SelReady))
 		copy(selUsed, n.sel)
 		child := func(cn schedNode) {
-			if depth+1 == 2 {
+			if depth+1 == schedShardDepth {
 				level2++
 				if !c.Mine(level2) {
 					return
